@@ -1288,6 +1288,13 @@ func (r *Resolver) authority(ctx context.Context, req, resp *dns.Msg, parentDS [
 			}
 
 			if r.dnssec && verified {
+				// As in answer(): verifyDNSSEC authenticated the signer
+				// zone's records and passed over authority records owned
+				// outside it, so those go no further. Left in place they
+				// reach the client, and the cache, under whatever AD the
+				// denial below earns.
+				resp.Ns = dnsutil.FilterRRsToZone(resp.Ns, chosenSigner)
+
 				// Require denial-of-existence proof for every
 				// negative response under a signed zone. Without
 				// it, a forged SOA+RRSIG would be enough to set
